@@ -12,7 +12,7 @@
  * member slots, each present or not, with
  *   key        one of "0" "7" "99" | "100" "-1" "x" "7x" ""         (distinct inside one object)
  *   the mark   an object or a number
- *   title      absent / a number / "A" / "B"
+ *   title      absent / a number / "A" / "B" / "AB"
  *   chan_type  absent / a number / "single" / "stack" / "Stack"
  *   labels     absent / a string / an object with two slots, each present or not:
  *                key "1" "2" | "x" (distinct), value a number / "A" / "B"
@@ -279,7 +279,7 @@ harness(void)
 		for (int s = 0; s < NSLOT; s++) {
 			const struct slot_in *si = &IN.th[t].slot[s];
 			V_ASSUME(si->present <= 1 && si->key < K_MAX && si->is_obj <= 1);
-			V_ASSUME(si->has_title <= 1 && si->title_is_str <= 1 && si->title <= 1);
+			V_ASSUME(si->has_title <= 1 && si->title_is_str <= 1 && si->title <= 2);
 			V_ASSUME(si->has_ct <= 1 && si->ct_is_str <= 1 && si->ct < CT_MAX);
 			V_ASSUME(si->has_labels <= 1 && si->labels_is_obj <= 1);
 			for (int l = 0; l < NLAB; l++)
